@@ -494,4 +494,4 @@ def run(ctx):
             'qvm.memlayout; the element addresses read by QvmEval.read_array are '
             'obtained as polynomials in the loop iteration numbers and '
             'compared with the address polynomial of _exec_arridx. Value '
-            'agreement is NOT decided.')
+            'agreement is NOT decided. Also: QArray.at accepts exactly the index tuples _exec_arridx accepts (polynomial domain), segment and index are rebound together, subscripts are rounded like the machine.')
